@@ -47,11 +47,13 @@ Definition loc_covers (rec:bool) (l:rloc) (d:path) : bool :=
   if path_eqb d (fst (fst l)) then negb (snd l)
   else rec && is_prefix (fst (fst l)) d && negb (ends_pycache (last d [])).
 
-(* module names (first dot-component, as the code has it) of the version files lying directly in D *)
-Definition version_file_stems (T:node) (sl:bool) (D:path) : list str :=
+(* module names (first dot-component, as the code has it) of the python files (.py/.pyc/.pyo, editor lock files
+   excepted) lying directly in D: a file in D/__pycache__ with one of these names duplicates a file of D *)
+Definition version_file_stems (T:node) (D:path) : list str :=
   match lookup T D with
   | Some (Dir es) => map (fun e : entry => stem (fst e))
-                         (filter (fun e : entry => negb (is_dirlike T (snd e)) && is_rev_name sl (fst e)) es)
+                         (filter (fun e : entry => negb (is_dirlike T (snd e)) && py_suffixed (fst e)
+                                                   && negb (prefixb s_lock (fst e))) es)
   | _ => []
   end.
 
@@ -62,7 +64,7 @@ Definition listed_by (T:node) (sl rec:bool) (le:lentry) (l:rloc) : bool :=
   || (sl && match d with
             | [] => false
             | _ => str_eqb (last d []) s_pycache && loc_covers rec l (removelast d)
-                   && negb (mem_str (stem nm) (version_file_stems T sl (removelast d)))
+                   && negb (mem_str (stem nm) (version_file_stems T (removelast d)))
             end).
 Definition entry_listed (T:node) (sl rec:bool) (locs:list rloc) (le:lentry) : bool :=
   existsb (listed_by T sl rec le) locs.
@@ -172,7 +174,7 @@ Definition weird_name (nm:str) : bool :=
   (suffixb s_py nm && ext_lost nm KSrc) || ((suffixb s_pyc nm || suffixb s_pyo nm) && ext_lost nm KC).
 Definition is_dir (c:node) : bool := match c with Dir _ => true | _ => false end.
 (* unique, non-empty names in every directory; links point at real files / directories; an entry named __pycache__ is a real
-   directory and contains only files and links to files; no weird names *)
+   directory and contains only files and links to files, none of them hidden (".name"); no weird names *)
 (* inpyc: n is an entry of a __pycache__ directory; ispyc: n is itself named __pycache__ *)
 Fixpoint wf_node (T:node) (inpyc ispyc:bool) (n:node) {struct n} : bool :=
   match n with
@@ -188,42 +190,27 @@ Fixpoint wf_node (T:node) (inpyc ispyc:bool) (n:node) {struct n} : bool :=
          match l with
          | [] => true
          | (nm, c) :: r =>
-             nonempty nm && negb (weird_name nm) && (if str_eqb nm s_pycache then is_dir c else true)
+             nonempty nm && negb (weird_name nm) && (negb ispyc || negb (prefixb [46] nm))
+             && (if str_eqb nm s_pycache then is_dir c else true)
              && wf_node T ispyc (str_eqb nm s_pycache) c && all r
          end) es
   end.
 Definition wf_tree (T:node) : bool := wf_node T false false T.
 
-(* FINDING class 1 (sourceless): a file that is not a version file shares its first dot-component with a file in
-   __pycache__ and hides it.  The hypothesis says this does not happen. *)
-Definition no_foreign_shadow (T:node) : bool :=
-  forallb (fun de : path * list entry =>
-     match find_entry s_pycache (snd de) with
-     | Some (Dir ces) =>
-         forallb (fun e : entry =>
-            negb (mem_str (stem (fst e)) (map (fun e : entry => stem (fst e)) (file_entries T (snd de))))
-            || mem_str (stem (fst e)) (version_file_stems T true (fst de))) ces
-     | _ => true
-     end) (all_dirs [] T).
-(* FINDING class 2 (sourceless): a .pyo that nothing supersedes is a version file by the documentation but no
+(* FINDING class (sourceless): a .pyo that nothing supersedes is a version file by the documentation but no
    importlib loader accepts the suffix. *)
 Definition no_live_pyo (T:node) : bool :=
   forallb (fun f : lentry => negb (is_file f && is_rev_name true (snd (fst f)) && suffixb s_pyo (snd (fst f))
                                  && negb (superseded T (fst (fst f)) (snd (fst f))))) (all_entries T).
-(* FINDING class 3: a blank item of version_locations is taken to be the working directory.  The hypothesis says
-   the code's splitting gives exactly the documented items; and every item is a relative path inside the tree,
-   and a non-recursive location is not called ...__pycache__ (there os.walk order decides what is listed). *)
-Definition opt_path_eqb (a b:option path) : bool :=
-  match a, b with Some x, Some y => path_eqb x y | None, None => true | _, _ => false end.
+(* every configured item is a relative path inside the tree (not absolute, not a package resource), and a
+   non-recursive location is not called ...__pycache__ (there os.walk order decides what is listed) *)
 Definition clean_config (i:input) : bool :=
-  match split_locations (i_sep i) (i_locs i), spec_locations (i_sep i) (i_locs i) with
-  | Ok vl, Ok ps => list_eqb opt_path_eqb (version_locations vl) ps
-                    && forallb (fun p => match p with
-                                         | Some p => negb (ends_pycache (last p [])) || i_rec i
-                                         | None => false
-                                         end) ps
-  | Err a, Err b => lerr_eqb a b
-  | _, _ => false
+  match spec_locations (i_sep i) (i_locs i) with
+  | Ok ps => forallb (fun p => match p with
+                               | Some p => negb (ends_pycache (last p [])) || i_rec i
+                               | None => false
+                               end) ps
+  | Err _ => true
   end.
 Definition inclass_C19 (i:input) : bool :=
-  wf_tree (i_tree i) && clean_config i && (negb (i_sl i) || (no_foreign_shadow (i_tree i) && no_live_pyo (i_tree i))).
+  wf_tree (i_tree i) && clean_config i && (negb (i_sl i) || no_live_pyo (i_tree i)).
